@@ -21,7 +21,12 @@
 #include <asmjit/core.h>
 #include <asmjit/x86.h>
 #include <asmjit/a64.h>
+#include <asmjit/core/rastack_p.h>
+#include <asmjit/core/rareg_p.h>
+#include <asmjit/core/rapass_p.h>
+#include <asmjit/x86/x86rapass_p.h>
 #include "vjson.h"
+#include <vector>
 #include <string>
 
 using namespace asmjit;
@@ -199,6 +204,8 @@ static bool apply_op(FuncFrame& frame, const vj::Value& o) {
   return true;
 }
 
+static std::vector<std::string> g_extra_body, g_extra_slots;
+
 // logs one observation: `frame` is finalized (or an error is recorded); emits prolog/epilog into a fresh Builder
 template<typename BuilderT, typename AssemblerT>
 static void log_observation(vj::W& w, const Environment& env, const FuncDetail& fd, bool custom, const FuncFrame& frame,
@@ -279,7 +286,21 @@ static void log_observation(vj::W& w, const Environment& env, const FuncDetail& 
     const FuncValue& v = fd.arg(i, 0);
     if (v.is_stack()) w.val((long long)v.stack_offset());
   }
+  w.endArr();
+  w.key("stackargsz").beginArr();      // size of the type of each stack-passed argument
+  if (e_fd == Error::kOk) for (unsigned i = 0; i < fd.arg_count(); i++) {
+    const FuncValue& v = fd.arg(i, 0);
+    if (v.is_stack()) w.val((unsigned)TypeUtils::size_of(v.type_id()));
+  }
   w.endArr().endObj();
+
+  // Compiler-derived functions only: the instructions between prolog and epilog and the home slots of the work registers
+  w.key("body").beginArr();
+  for (size_t i = 0; i < g_extra_body.size(); i++) { w.sep(); w.s += g_extra_body[i]; }
+  w.endArr();
+  w.key("slots").beginArr();
+  for (size_t i = 0; i < g_extra_slots.size(); i++) { w.sep(); w.s += g_extra_slots[i]; }
+  w.endArr();
 
   // the frame record: every accessor, nothing derived
   w.key("fr").beginObj()
@@ -527,6 +548,197 @@ static void compiler_case(FILE* out, const char* env_name, CallConvId callee_cc,
   log_observation<x86::Builder, x86::Assembler>(w, env, fn->detail(), false, fr, e_inv, Error::kOk, e_fin, out);
 }
 
+// ---------------------------------------------------------------------------------------------------------------------
+// Compiler-derived functions with MANY stack-passed arguments, each bound to a virtual register of the same or of a wider
+// type, all live from entry to the end (so the allocator has to spill them / keep them in their incoming slots).  Read back
+// from the finalized function: the frame, the home slot of every work register (base register, offset, size, flags, the
+// argument it is bound to) - snapshot taken in on_done() of a pass subclass - and the whole instruction list.
+// ---------------------------------------------------------------------------------------------------------------------
+struct SlotSnapPass : public x86::X86RAPass {
+  explicit SlotSnapPass(BaseCompiler& cc) noexcept : x86::X86RAPass(cc) {}
+  void on_done() noexcept override {
+    const FuncDetail& fd = _func->detail();
+    for (size_t i = 0; i < _work_regs.size(); i++) {
+      RAWorkReg* r = _work_regs[i];
+      RAStackSlot* sl = r->stack_slot();
+      if (!sl) continue;
+      long long arg = -1, argoff = -1, argsz = 0;
+      if (r->has_arg_index()) {
+        const FuncValue& v = fd.arg(r->arg_index(), r->arg_value_index());
+        arg = (long long)r->arg_index();
+        if (v.is_stack()) { argoff = v.stack_offset(); argsz = TypeUtils::size_of(v.type_id()); }
+      }
+      vj::W w;
+      w.beginObj().kv("wr", (unsigned)i).kv("g", unsigned(r->group())).kv("base", sl->base_reg_id()).kv("off", (long long)sl->offset())
+       .kv("size", sl->size()).kv("align", sl->alignment()).kv("stackarg", sl->is_stack_arg()).kv("reghome", sl->is_reg_home())
+       .kv("used", r->is_stack_used()).kv("arg", arg).kv("argoff", argoff).kv("argsz", argsz).endObj();
+      g_extra_slots.push_back(w.s);
+    }
+    x86::X86RAPass::on_done();
+  }
+};
+
+template<typename PassT>
+static void install_pass(BaseCompiler& cc) {
+  for (size_t i = 0; i < cc._passes.size(); i++) {
+    Pass* old = cc._passes[i];
+    if (strcmp(old->name(), "RAPass") == 0) {
+      old->~Pass();
+      cc._passes[i] = cc._builder_arena.new_oneshot<PassT>(cc);
+    }
+  }
+}
+
+// arg kinds: 'i' int32, 'q' int64, 'f' float, 'd' double.  bind: 0 = same type, 1 = wider (gp32->gp64, int->xmm, float->xmm, double->ymm)
+static void argspill_case(FILE* out, const char* env_name, const std::string& kinds, unsigned bind, bool with_call, bool fp, bool touch) {
+  Environment env;
+  env_from_name(env_name, env);
+  CodeHolder code;
+  code.init(env);
+  x86::Compiler cc(&code);
+  install_pass<SlotSnapPass>(cc);
+  g_extra_body.clear(); g_extra_slots.clear();
+
+  FuncSignature sig(CallConvId::kCDecl);
+  sig.set_ret(TypeId::kInt32);
+  for (char k : kinds) sig.add_arg(k == 'i' ? TypeId::kInt32 : k == 'q' ? TypeId::kInt64 : k == 'f' ? TypeId::kFloat32 : TypeId::kFloat64);
+  FuncNode* fn = cc.add_func(sig);
+  fn->frame().set_avx_enabled();
+  if (fp) fn->frame().set_preserved_fp();
+  bool is32 = env.is_32bit();
+
+  std::vector<Reg> regs;
+  for (size_t i = 0; i < kinds.size(); i++) {
+    char k = kinds[i];
+    unsigned w = bind == 0 ? 0 : bind == 1 ? 1 : (unsigned)(i % 3);     // bind 2: mixed (same / wider / widest)
+    if (!fn->detail().arg(i).is_stack()) w = 0;                          // only stack-passed arguments are bound to wider registers
+    Reg v;
+    if (k == 'i') v = w == 0 ? Reg(cc.new_gp32("a")) : (w == 1 && !is32) ? Reg(cc.new_gp64("a")) : Reg(cc.new_xmm("a"));
+    else if (k == 'q') v = (w == 0 || is32) ? Reg(cc.new_gp64("a")) : Reg(cc.new_xmm("a"));
+    else if (k == 'f') v = w == 0 ? Reg(cc.new_xmm_ss("a")) : w == 1 ? Reg(cc.new_xmm("a")) : Reg(cc.new_ymm("a"));
+    else v = w == 0 ? Reg(cc.new_xmm_sd("a")) : w == 1 ? Reg(cc.new_ymm("a")) : Reg(cc.new_xmm("a"));
+    if (is32 && k == 'q') { regs.push_back(Reg()); continue; }            // 64-bit integers need register pairs on x86-32: left unbound
+    fn->set_arg(i, v);
+    regs.push_back(v);
+  }
+  x86::Gp acc = cc.new_gp32("acc");
+  x86::Vec accv = cc.new_ymm("accv");
+  cc.xor_(acc, acc);
+  cc.vpxor(accv, accv, accv);
+  // `touch`: every argument register is MODIFIED first, so that a spill has to WRITE its home slot
+  if (touch) for (size_t i = 0; i < regs.size(); i++) {
+    const Reg& v = regs[i];
+    if (v.is_none()) continue;
+    if (v.is_gp()) { x86::Gp g = v.as<x86::Gp>(); cc.add(g.r32(), 1); }
+    else { x86::Vec x = v.as<x86::Vec>(); cc.vpaddd(x.xmm(), x.xmm(), x.xmm()); }
+  }
+  if (with_call) {
+    InvokeNode* inv = nullptr;
+    FuncSignature csig(CallConvId::kCDecl);
+    csig.set_ret(TypeId::kVoid);
+    cc.invoke(Out(inv), imm(0x1234), csig);
+  }
+  // every argument is used only here, at the very end
+  for (size_t i = 0; i < regs.size(); i++) {
+    const Reg& v = regs[i];
+    if (v.is_none()) continue;
+    if (v.is_gp()) {
+      x86::Gp g = v.as<x86::Gp>();
+      cc.add(acc, g.r32());
+    }
+    else {
+      x86::Vec x = v.as<x86::Vec>();
+      cc.vpaddd(accv, accv, x.ymm());
+    }
+  }
+  x86::Gp t = cc.new_gp32("t");
+  cc.vmovd(t, accv.xmm());
+  cc.add(acc, t);
+  cc.ret(acc);
+  cc.end_func();
+  Error e_fin = cc.finalize();
+  const FuncFrame& fr = fn->frame();
+  if (e_fin != Error::kOk && !getenv("C07_DEBUG")) { g_extra_body.clear(); g_extra_slots.clear(); return; }   // the Compiler refused the function (register pressure at entry): not a frame
+  if (getenv("C07_DEBUG") && e_fin != Error::kOk) fprintf(stderr, "%s %s bind=%u call=%d fp=%d touch=%d: %s\n", env_name, kinds.c_str(), bind, with_call, fp, touch, DebugUtils::error_as_string(e_fin));
+
+  // the finalized function's instruction list
+  bool foreign = false;
+  std::vector<std::string> all;
+  for (BaseNode* nd = fn; nd; nd = nd->next()) {
+    if (nd->is_inst()) {
+      InstNode* in_ = nd->as<InstNode>();
+      String name;
+      InstAPI::inst_id_to_string(env.arch(), in_->inst_id(), InstStringifyOptions::kNone, name);
+      vj::W w;
+      w.beginObj().kv("m", name.data());
+      w.key("o").beginArr();
+      for (const Operand& op : in_->operands()) put_operand(w, op, false);
+      w.endArr().endObj();
+      all.push_back(w.s);
+    }
+  }
+  // prolog / epilog lengths as emit_prolog/emit_epilog produce them for this very frame
+  size_t np = 0, ne = 0;
+  if (e_fin == Error::kOk) {
+    CodeHolder c2; c2.init(env);
+    x86::Builder b2(&c2);
+    b2.emit_prolog(fr);
+    for (BaseNode* nd = b2.first_node(); nd; nd = nd->next()) if (nd->is_inst()) np++;
+    size_t n0 = np;
+    b2.emit_epilog(fr);
+    for (BaseNode* nd = b2.first_node(); nd; nd = nd->next()) if (nd->is_inst()) ne++;
+    ne -= n0;
+  }
+  if (all.size() >= np + ne) g_extra_body.assign(all.begin() + np, all.end() - ne);
+
+  vj::W w;
+  w.beginObj();
+  w.key("cfg").beginObj().kv("env", env_name).kv("cc", "cdecl").kv("src", "compiler").kv("nargs", (unsigned)kinds.size());
+  w.key("callee").beginObj().kv("cc", "argspill").kv("kinds", kinds).kv("bind", bind).kv("call", with_call).kv("fp", fp).kv("touch", touch)
+   .kv("ninst", (unsigned)all.size()).endObj();
+  w.key("cp").beginArr().beginArr().endArr().beginArr().endArr().beginArr().endArr().beginArr().endArr().endArr();
+  w.key("ops").beginArr();
+  auto op = [&](const char* name, long long a) { w.beginObj().kv("op", name).kv("a", a).kv("g", 0).key("ids").beginArr().endArr().endObj(); };
+  op("update_cs", fr.call_stack_size());
+  op("update_ca", fr.call_stack_alignment());
+  for (unsigned g = 0; g < 4; g++) {
+    w.beginObj().kv("op", "add_dirty").kv("a", 0).kv("g", g).key("ids");
+    put_ids(w, fr.dirty_regs(RegGroup(g)));
+    w.endObj();
+  }
+  op("set_la", fr.local_stack_alignment());
+  op("set_ls", fr.local_stack_size());
+  if (fr.has_preserved_fp()) op("set_fp", 0);
+  if (fr.has_func_calls()) op("set_calls", 0);
+  w.endArr().endObj();
+  log_observation<x86::Builder, x86::Assembler>(w, env, fn->detail(), false, fr, Error::kOk, Error::kOk, e_fin, out);
+  g_extra_body.clear(); g_extra_slots.clear();
+}
+
+static void argspill_cases(FILE* out) {
+  static const char* kinds[] = {
+    "iiiiiiiiiiiiiiiiiiiiiiii",      // 24 ints
+    "iiiiiiiiiiii",                  // 12 ints
+    "ffffffffffffffffffffffff",      // 24 floats
+    "dddddddddddddddddddd",          // 20 doubles
+    "ffffffffffff",                  // 12 floats
+    "dddddddddd",                    // 10 doubles
+    "fdfdfdfdfdfdfd",                // 14 floats/doubles
+    "ififdqifdqifdqifdqifdq",        // mixed
+    "qqqqqqqqqqqqqqqq",              // 16 int64
+    "iiiiiiii",                      // 8 ints
+  };
+  for (const char* env : {"x64-sysv", "x64-win", "x86-sysv"})
+    for (const char* k : kinds) {
+      if (strchr(k, 'q') && !strcmp(env, "x86-sysv")) continue;          // 64-bit integer arguments need register pairs on x86-32
+      for (unsigned bind : {0u, 1u, 2u})
+        for (bool call : {false, true})
+          for (bool fp : {false, true})
+            for (bool touch : {false, true})
+              argspill_case(out, env, k, bind, call, fp, touch);
+    }
+}
+
 static void compiler_cases(FILE* out) {
   struct Callee { CallConvId cc; const char* name; TypeId arg; };
   static const Callee callees[] = {
@@ -552,6 +764,7 @@ int main(int argc, char** argv) {
     if (!out) return 3;
     vj::install_abort_handlers(out);
     compiler_cases(out);
+    argspill_cases(out);
     fclose(out);
     return 0;
   }
